@@ -183,6 +183,13 @@ var solvers = []solverSpec{
 	{"cvc5", func(f string, t int) []string {
 		return []string{"cvc5", "--incremental", "--strings-exp", fmt.Sprintf("--tlimit=%d", t*1000), f}
 	}},
+	// further configurations: quantifier instantiation is heuristic, a portfolio makes verdicts stable
+	{"z3-new/relevancy=0", func(f string, t int) []string {
+		return []string{"z3-new", fmt.Sprintf("-T:%d", t), "smt.relevancy=0", f}
+	}},
+	{"cvc5/enum-inst", func(f string, t int) []string {
+		return []string{"cvc5", "--strings-exp", "--enum-inst", fmt.Sprintf("--tlimit=%d", t*1000), f}
+	}},
 }
 
 func solverVersions() map[string]string {
